@@ -495,6 +495,141 @@ def _names_ok(v) -> bool:
     return True
 
 
+# ---------------------------------------------------------------------------
+# whole-line tokenizer (round 4): tok_line of the Coq model vs CPython's tokenizer on the lines
+# mashumaro really generated during the oracle, plus hand-made lines
+# ---------------------------------------------------------------------------
+
+TQ1 = "'" * 3
+TQ2 = '"' * 3
+HAND_LINES = [
+    "x = 'a' # 'b'", "value = d.get('it\\'s', MISSING)", "r'x'", TQ1 + "a" + TQ1, "f(b'x', 'y')", "f(b\"\\xff\")", "'a' 'b'",
+    "x = 1 \\", "kwargs[\"it's\"] = value", "d = {'a': 1, \"b\": 2}", "# only a comment 'x'", "x = ''", "x = '' ''", "bb'x'", "B'x'",
+    "f'{x}'", "u'x'", "x = 'a", "x = \"a'", "if value == 'x\\n':", "    raise ValueError('Argument for m.A should be a dict') from None",
+    "a.b'c'", "x = b''", "x = 1b'c'", "'\\x41\\u00e9\\U0001f600'", "x = b'\\x00' + b\"'\"", "y = 'caf\u00e9'", "'a'#'b'\n'c'",
+]
+
+
+def py_line_literals(text: str):
+    """values of the string / bytes literal tokens of `text` in order, by CPython's tokenizer; None when CPython
+    refuses the text or it uses what the line model does not cover (prefixes other than b, triple quotes,
+    f-strings, backslash continuation outside literals)"""
+    if "\0" in text or any(0xd800 <= ord(c) < 0xe000 for c in text) or "\r" in text:
+        return None
+    toks = []
+    try:
+        with warnings.catch_warnings():
+            warnings.simplefilter("ignore")
+            for t in tokenize.generate_tokens(io.StringIO(text).readline):
+                toks.append(t)
+    except tokenize.TokenError as e:
+        if "EOF in multi-line statement" not in str(e):
+            return None
+    except (SyntaxError, IndentationError):
+        return None
+    out = []
+    fstring = getattr(tokenize, "FSTRING_START", -1)
+    for t in toks:
+        if t.type == fstring or t.type == tokenize.ERRORTOKEN:
+            return None
+        if t.type == tokenize.STRING:
+            i = min(j for j, c in enumerate(t.string) if c in "'\"")
+            pre = t.string[:i]
+            if pre not in ("", "b") or t.string[i:i + 3] in (TQ1, TQ2):
+                return None
+            if t.start[1] > 0 and (t.line[t.start[1] - 1].isalnum() or t.line[t.start[1] - 1] == "_" or ord(t.line[t.start[1] - 1]) >= 128):
+                return None      # a literal glued to a preceding name / number: not modelled
+            try:
+                with warnings.catch_warnings():
+                    warnings.simplefilter("ignore")
+                    v = eval(compile(t.string, "<c16>", "eval"), {"__builtins__": {}}, {})
+            except Exception:
+                return None
+            out.append(v)
+    # an explicit continuation (backslash-newline outside a literal) is not modelled
+    in_strings = "".join(t.string for t in toks if t.type == tokenize.STRING)
+    if text.count("\\\n") + (1 if text.endswith("\\") else 0) > in_strings.count("\\\n"):
+        return None
+    return out
+
+
+def coq_lvals(vs) -> str:
+    if vs is None:
+        return "None"
+    return "Some [" + "; ".join(("VB " + coq_nl(list(v))) if isinstance(v, bytes) else ("VS " + coq_nl(cps(v))) for v in vs) + "]"
+
+
+def float_law(ctx: vlib.Ctx):
+    """the law behind C16_float_inert and the TFloat kind: repr of a finite float is digits . e + - only
+    (evaluated by the Coq predicate float_text_ok) and float(repr(x)) == x (CPython's guarantee, checked here)"""
+    import math
+    import struct
+    rng = ctx.rng
+    n = ctx.budget(400, 4000)
+    fl = [0.0, -0.0, 1.0, -1.0, 0.1, 1e16, 1e-5, 1.5e300, 5e-324, 2.2250738585072014e-308, 1.7976931348623157e308,
+          123456789.123456789, 1e22, 1e23, 0.30000000000000004, float(2**53), -1e-7, 3.141592653589793]
+    while len(fl) < n:
+        x = struct.unpack("<d", struct.pack("<Q", rng.getrandbits(64)))[0]
+        if math.isfinite(x):
+            fl.append(x)
+        fl.append(rng.uniform(-1e6, 1e6))
+    bad_rt = [x for x in fl if float(repr(x)) != x or math.copysign(1, float(repr(x))) != math.copysign(1, x)]
+    cases = [coq_nl(cps(repr(x))) for x in fl]
+    bad, log = vlib.coq_bad_idx("c16_float", "PyStrLit PyLine", "", "Local Open Scope N_scope.\n", cases, "float_text_ok", "list N",
+                                shard=1000, needs=["theories/PyLine.vo"])
+    name = "float-repr-law (float_text_ok (repr x), float(repr x) == x)"
+    if bad is None:
+        ctx.correspondence(name, len(cases), -1, log)
+        ctx.not_shown("law " + name, log)
+    else:
+        nb = len(bad) + len(bad_rt)
+        ctx.correspondence(name, len(cases), nb, "; ".join(repr(fl[i]) for i in bad[:5]) + " | " + "; ".join(map(repr, bad_rt[:5])))
+        if nb:
+            ctx.not_shown("law " + name, "; ".join(repr(fl[i]) for i in bad[:5]) + " | " + "; ".join(map(repr, bad_rt[:5])))
+    ctx.count(n=len(cases))
+
+
+def line_tie(ctx: vlib.Ctx):
+    rng = ctx.rng
+    n = ctx.budget(700, 6000)
+    lines = set()
+    for code in GENERATED:
+        for ln in code.split("\n"):
+            if ln.strip():
+                lines.add(ln)
+    lines = sorted(lines)
+    quoted = [l for l in lines if "'" in l or '"' in l]
+    plain = [l for l in lines if not ("'" in l or '"' in l)]
+    rng.shuffle(quoted)
+    rng.shuffle(plain)
+    pick = quoted[: n - 60] + plain[:60]
+    whole = sorted(set(GENERATED))          # whole generated functions as multi-line texts, too
+    rng.shuffle(whole)
+    pick += whole[: n // 10]
+    pick += HAND_LINES
+    cases, shown = [], []
+    nlit = 0
+    for t in pick:
+        e = py_line_literals(t)
+        if e:
+            nlit += len(e)
+        cases.append(f"({coq_nl(cps(t))}, {coq_lvals(e)})")
+        shown.append(t)
+        ctx.hist("line_tie", "with-literals" if e else ("rejected/not-modelled" if e is None else "no-literal"))
+    ctx.coverage["line_tie_generated_texts"] = {"captured_programs": len(GENERATED), "distinct_lines": len(lines), "literal_tokens_compared": nlit}
+    bad, log = vlib.coq_bad_idx("c16_line", "PyStrLit PyLine", "", "Local Open Scope N_scope.\n", cases, "line_case_ok",
+                                "list N * option (list lval)", shard=400, needs=["theories/PyLine.vo"])
+    name = "line-tokens-model-vs-cpython-tokenizer (generated lines)"
+    if bad is None:
+        ctx.correspondence(name, len(cases), -1, log)
+        ctx.not_shown("correspondence " + name, log)
+    else:
+        ctx.correspondence(name, len(cases), len(bad), "; ".join(repr(shown[i])[:100] for i in bad[:6]))
+        if bad:
+            ctx.not_shown("correspondence " + name, "; ".join(repr(shown[i])[:120] for i in bad[:6]))
+    ctx.count(n=len(cases))
+
+
 def _corr(ctx, name, imports, defs, cases, okf, ctype, show):
     bad, log = vlib.coq_bad_idx("c16_" + name.split("-vs-")[0].replace("-", "_"), imports, "", defs, cases, okf, ctype,
                                 shard=500, needs=["theories/PyStrLit.vo", "theories/PyLit.vo"])
@@ -802,13 +937,15 @@ class A(DataClassDictMixin):
     w: Tuple[str] = (S,)
     e: Any = Evil(S)
     f: Fl = Fl.B
+    fl: float = 1.5e300
+    ft: Tuple[float, str] = (-0.1, S)
     b: Any = S.encode('utf-8', 'surrogatepass')
     class Config(BaseConfig):
         omit_default = True
 def check():
     eq('defaults omitted', lambda: A().to_dict(), {})
-    eq('others kept', lambda: A(EvilStr(S + '~'), (Evil(S + '~'), S), ((S, S), 1), (S + '~',), Evil(S + '~'), Fl.A, b'~').to_dict(),
-       {'g': EvilStr(S + '~'), 't': [Evil(S + '~'), S], 'u': [[S, S], 1], 'w': [S + '~'], 'e': Evil(S + '~'), 'f': 1, 'b': b'~'})
+    eq('others kept', lambda: A(EvilStr(S + '~'), (Evil(S + '~'), S), ((S, S), 1), (S + '~',), Evil(S + '~'), Fl.A, 2.5, (0.1, S), b'~').to_dict(),
+       {'g': EvilStr(S + '~'), 't': [Evil(S + '~'), S], 'u': [[S, S], 1], 'w': [S + '~'], 'e': Evil(S + '~'), 'f': 1, 'fl': 2.5, 'ft': [0.1, S], 'b': b'~'})
     eq('from_dict', lambda: A.from_dict({}), A())
     return OUT
 """
@@ -870,8 +1007,31 @@ def enum_name_ok(s: str) -> bool:
 IDENTS = ["a", "x1", "_x"[1:], "é", "中", "ﬁ", "ª", "camelCase", "x_y", "Āb", "d", "value", "kwargs", "MISSING", "self", "cls"]
 
 
+GENERATED: list = []          # generated source texts captured during the oracle (for the line-tokens tie)
+_REC_INSTALLED = False
+
+
+def install_recorder():
+    """rebind the module-global `exec` of the generator modules to a recording wrapper (no edit of /repo)"""
+    global _REC_INSTALLED
+    if _REC_INSTALLED:
+        return
+    import importlib
+    for mn in ("mashumaro.core.meta.code.builder", "mashumaro.core.meta.types.pack", "mashumaro.core.meta.types.unpack",
+               "mashumaro.core.meta.types.common"):
+        m = importlib.import_module(mn)
+
+        def rec(code, *a, _e=builtins.exec, **k):
+            if isinstance(code, str) and len(GENERATED) < 60000:
+                GENERATED.append(code)
+            return _e(code, *a, **k)
+        m.exec = rec
+    _REC_INSTALLED = True
+
+
 def run_src(src: str):
     """exec the self-contained case; returns (failures, sentinel_hits)"""
+    install_recorder()
     hits = []
     setattr(builtins, SENTINEL, hits)
     name = "c16_case"
@@ -983,6 +1143,27 @@ def oracle(ctx: vlib.Ctx, boost: bool = False):
                          classify(p, s, fails))
             if i < 3:
                 ctx.sample({"position": p, "variant": variant, "string": s, "failures": fails, "sentinel": len(hits)})
+    # the empty alias and a quote alias through EVERY combination of the alias-relevant options
+    # (independent of the random stream: the empty string has no second chance among random strings)
+    import itertools
+    OPTS = ("serialize_by_alias", "allow_deserialization_not_by_alias", "forbid_extra_keys", "omit_default", "TO_DICT_ADD_BY_ALIAS_FLAG")
+    for s in ("", "it's"):
+        for how in ("metadata", "annotated", "config"):
+            for fk in ("int", "int-default", "any"):
+                for bits in itertools.product((False, True), repeat=len(OPTS)):
+                    opts = {o: True for o, b in zip(OPTS, bits) if b}
+                    src = src_alias(s, how, fk, opts)
+                    fails, hits = run_src(src)
+                    p = "alias-" + how
+                    ctx.count((p, s, fk, bits))
+                    ctx.hist("positions", p + "-exhaustive-options")
+                    if fails or hits:
+                        variant = fk + "|" + ",".join(sorted(opts))
+                        ctx.fail((f"{p} [{variant}] with string {s!r}: " + ("SENTINEL FIRED; " if hits else "") +
+                                  "; ".join(f"{w}: got {g}, expected {e}" for w, g, e in fails[:3]))[:600],
+                                 {"entry": "exec(source); check()", "source": src, "string": s, "position": p, "variant": variant,
+                                  "observed": fails[:5], "sentinel_hits": len(hits), "expected": "no failures, sentinel not fired"},
+                                 classify(p, s, fails))
     # named-tuple keys: identifiers only (Python refuses everything else)
     for j, s in enumerate(IDENTS):
         for how in ("config", "metadata"):
@@ -1001,7 +1182,7 @@ def oracle(ctx: vlib.Ctx, boost: bool = False):
 # the check
 # ---------------------------------------------------------------------------
 
-THEOREMS = ["C16_render_eval", "C16_sites_full", "C16_site_value", "C16_default_branches_safe", "C16_default_literal_general",
+THEOREMS = ["C16_float_inert", "C16_ident_sites", "C16_ident_site", "C16_line_literal", "C16_line_literal_bytes", "C16_site_line", "C16_render_eval", "C16_sites_full", "C16_site_value", "C16_default_branches_safe", "C16_default_literal_general",
             "C16_default_literal", "C16_repr_tuple_refuted", "C16_repr_lex", "C16_ascii_lex", "C16_repr_bytes_lex", "C16_repr_clean", "C16_raw_plain_lex",
             "C16_raw_refuted", "C16_sites", "C16_site_literal", "C16_site_guarded", "C16_ident_char_inert",
             "C16_site_literal_bytes"]
@@ -1025,6 +1206,11 @@ def k10_evidence(ctx: vlib.Ctx):
                            "not_ok_rows": [f"{r['kind']} {r['file'].split('/')[-1]}:{r['line']} {r['expr'][:60]} ({r['origin'][:60]})" for r in bad[:20]],
                            "sites": [f"{r['kind']} {r['file'].split('/')[-1]}:{r['line']} {r['func']} {r['expr'][:40]} <{r['origin'][:30]}> {r['before'][-24:]!r} . {r['after'][:12]!r}"
                                      for r in rep["sites"]][:80]}
+    isites = rep.get("ident_sites", [])
+    ctx.coverage["k10"]["ident_sites"] = len(isites)
+    ctx.coverage["k10"]["ident_sites_not_plain"] = [f"{r['file'].split('/')[-1]}:{r['line']} {r['expr']} <{r['origin'][:40]}>" for r in isites if not r["plain"]][:10]
+    if ctx.coverage["k10"]["ident_sites_not_plain"]:
+        ctx.coverage["k10"]["not_ok_rows"] += ["ident " + x for x in ctx.coverage["k10"]["ident_sites_not_plain"]]
     for r in rep["sites"]:
         ctx.hist("k10_origin", r["origin"][:40])
     return rep
@@ -1077,8 +1263,10 @@ def run(ctx: vlib.Ctx):
             ctx.not_shown("coqchk VerifProps.C16_strings", log[-800:])
     model_tie(ctx)
     lit_tie(ctx)
+    float_law(ctx)
     broken = bool(ctx.unshown)
     oracle(ctx, boost=broken)
+    line_tie(ctx)
 
 
 def replay(rep: dict) -> int:
